@@ -264,6 +264,9 @@ def flush_online_mirror(ctx):
         ctx.count("on-mirror:" + m[0])
         if m[0] == "undef" or (m[0] == "err" and m[1] == "type"):
             continue          # NaN samples / the float `last` of case 1 of the online intersection: outside the mirror
+        if out[0] == "ok" and any(p[1] != p[1] for row in out[1] for p in row):
+            ctx.count("on-mirror:nan")
+            continue          # inf - inf somewhere: outside the domain of the semantics and of the mirror (`vne`)
         if out[0] == "ok" and m[0] == "ok":
             same = len(out[1]) == len(m[1]) and all(same_samples(a, b) for a, b in zip(out[1], m[1]))
         else:
@@ -369,9 +372,11 @@ def compare_offline_batch(ctx, cases):
             consts = []
             text, out = eval_offline(f, sig, text=c08.render(random.Random(c["units_seed"]), f, "s", int(SCALE * 10 ** 9), [], False, consts),
                                      unit="s", extra={"consts": consts})
+        elif c.get("text"):
+            text, out = eval_offline(f, sig, text=c["text"])
         else:
             text, out = eval_offline(f, sig)
-        rep = {"units_seed": c.get("units_seed"), "monitor": "offc", "spec": text, "formula": F.to_proto(f), "signals": {v: [[str(t), x] for t, x in sig[v]] for v in sig},
+        rep = {"sugar_text": c.get("text"), "units_seed": c.get("units_seed"), "monitor": "offc", "spec": text, "formula": F.to_proto(f), "signals": {v: [[str(t), x] for t, x in sig[v]] for v in sig},
                "impl": out}
         work.append((c, text, out, rep))
     doms = model_query([(c["f"], c["sig"], []) for c, _, _, _ in work])
@@ -424,7 +429,7 @@ def compare_offline_batch(ctx, cases):
     for k, m in zip(todo, alg_query([(work[k][0]["f"], work[k][0]["sig"]) for k in todo])):
         c, text, out, rep = work[k]
         ctx.count("alg:" + m[0])
-        if m[0] == "undef":
+        if m[0] == "undef" or any(p[1] != p[1] for p in out[1]):
             continue
         if m[0] != "ok" or not same_samples(out[1], m[1]):
             ctx.diffs.append(Violation("the mirror of the dense offline list algorithms (Dense/Alg.lean) gives %r, evaluate() returned %r: %s"
@@ -444,7 +449,7 @@ def compare_mirror_only(ctx, cases):
         work.append((c, text, out))
     for (c, text, out), m in zip(work, alg_query([(c["f"], c["sig"]) for c, _, _ in work])):
         ctx.count("alg-known-region:" + m[0])
-        if m[0] == "undef":
+        if m[0] == "undef" or (out[0] == "ok" and any(p[1] != p[1] for p in out[1])):
             continue
         rep = {"monitor": "offc", "spec": text, "formula": F.to_proto(c["f"]), "signals": sig_rep(c["sig"]), "impl": out,
                "mirror": [[str(t), v] for t, v in m[1]] if m[0] == "ok" else list(m)}
@@ -719,7 +724,7 @@ def replay_sign(ctx, obj):
 # -------------------------------------------------------------------------------- C16
 def extension_stream(ctx):
     rng = ctx.subrng("ext-c")
-    for _ in range(ctx.budget(200, 2000)):
+    for _ in range(ctx.budget(320, 2500)):
         g = DGen(rng, VARS[:2], DENSE_OFF - {"ufuture", "until"}, max_bound=rng.choice([2, 4]))
         f = g.formula(rng.choice([1, 2, 3]))
         if rng.random() < 0.3:
@@ -728,6 +733,15 @@ def extension_stream(ctx):
             if rng.random() < 0.7:
                 inner = ("b", rng.choice(["and", "or"]), inner, g.formula(rng.choice([0, 1])))
             f = ("t1", rng.choice(["once", "hist"]), inner)
+        elif rng.random() < 0.45:
+            # a bounded until / since with a positive lower bound directly over shallow operands (the code decomposes it into a
+            # bounded eventually / once and a bounded always / historically of the unbounded operator): what lies beyond
+            # t + b must not matter
+            a_ = rng.randint(1, 4)
+            opnd = lambda: ("v", rng.choice(VARS[:2])) if rng.random() < 0.5 else g.formula(rng.choice([0, 0, 1]))  # noqa: E731
+            f = ("tb2", rng.choice(["until", "until", "until", "since"]), a_, a_ + rng.randint(0, 4), opnd(), opnd())
+            if rng.random() < 0.3:
+                f = ("u", "not", f)
         vs = F.variables(f) or ["x"]
         w1 = gen_signals(rng, vs)
         end1 = max(s[-1][0] for s in w1.values())
